@@ -71,6 +71,11 @@ func renderDSL(sb *strings.Builder, g interface{}, seen map[string]bool) (string
 			} else {
 				key = strconv.Quote(strconv.Itoa(int(vals[i].(float64))))
 			}
+			if rm["r"].(string) == "string" && dslName(vals[i]) == dslName(x) {
+				// the DSL's default: a member without a value is represented by its own name
+				fmt.Fprintf(sb, "\t| %s\n", dslName(x))
+				continue
+			}
 			fmt.Fprintf(sb, "\t| %s (%s)\n", dslName(x), key)
 		}
 		fmt.Fprintf(sb, "} representation %s\n", rm["r"].(string))
